@@ -105,6 +105,10 @@ func (p *gcpPicker) Pick(info balancer.PickInfo) (balancer.PickResult, error) {
 
 		switch cmd {
 		case grpc_gcp.AffinityConfig_BIND:
+			if !hasGCPCtx {
+				// The call was not made through the grpcgcp interceptors: no reply to look at.
+				return
+			}
 			bindKeys, err := getAffinityKeysFromMessage(locator, gcpCtx.replyMsg)
 			if err == nil {
 				for _, bk := range bindKeys {
